@@ -1,5 +1,6 @@
 SPECIFICATION MCSpec
 CONSTANTS
+  AllSchedules = FALSE
   PermuteModules = FALSE
   TypeNames = {"X", "u16"}
   DefSets <- AllDefSets
